@@ -564,3 +564,40 @@ func splNoNil(s *sentPacketList, k int) bool {
 //@   loop 2 step sent.state != atiter(sent.state) ==> (atiter(sent.state) == sentPacketSent && sent.state == sentPacketLost)
 //@   loop 2 step c.cc.bytesInFlight == atiter(c.cc.bytesInFlight) - ite(sent.state != atiter(sent.state) && sent.inFlight, sent.size, 0)
 //@   noframe
+
+//@ func (*lossState).discardPackets(c, space, log, lossf)
+//@   trustcall lossf
+//@   uses lemmaModWrap
+//@   abstractrem
+//@   requires c != nil && c.cc != nil && 0 <= space && space < numberSpaceCount
+//@   requires splOK(&c.spaces[space].sentPacketList)
+//@   requires forall k int :: splNoNil(&c.spaces[space].sentPacketList, k)
+//@   loop 1 invariant 0 <= i && c.cc == old(c.cc)
+//@   loop 1 step sent.state != atiter(sent.state) ==> (atiter(sent.state) == sentPacketSent && sent.state == sentPacketLost)
+//@   loop 1 step c.cc.bytesInFlight == atiter(c.cc.bytesInFlight) - ite(sent.state != atiter(sent.state) && sent.inFlight, sent.size, 0)
+//@   noframe
+//@
+//@ func (*lossState).discardKeys(c, now, log, space)
+//@   uses lemmaModWrap
+//@   abstractrem
+//@   requires c != nil && c.cc != nil && 0 <= space && space < numberSpaceCount
+//@   requires splOK(&c.spaces[space].sentPacketList)
+//@   requires forall k int :: splNoNil(&c.spaces[space].sentPacketList, k)
+//@   loop 1 invariant 0 <= i && c.cc == old(c.cc)
+//@   loop 1 step sent.state == atiter(sent.state)
+//@   loop 1 step c.cc.bytesInFlight == atiter(c.cc.bytesInFlight) - ite(sent.state == sentPacketSent && sent.inFlight, sent.size, 0)
+//@   noframe
+//@
+//@ func (*lossState).receiveAckRange(c, now, space, rangeIndex, start, end, ackf) (err)
+//@   trustcall ackf
+//@   uses lemmaModWrap
+//@   abstractrem
+//@   requires c != nil && c.cc != nil && 0 <= space && space < numberSpaceCount
+//@   requires splOK(&c.spaces[space].sentPacketList) && 0 <= c.spaces[space].nextNum && c.spaces[space].nextNum <= 1<<62
+//@   requires -1 <= start && start <= 1<<62 && -1 <= end && end <= 1<<62
+//@   requires forall k int :: splNoNil(&c.spaces[space].sentPacketList, k)
+//@   ensures  end > old(c.spaces[space].nextNum) ==> err != nil
+//@   loop 1 invariant c.cc == old(c.cc) && start <= pnum && c.spaces[space].nextNum - packetNumber(c.spaces[space].size) <= start && end <= c.spaces[space].nextNum
+//@   loop 1 step sent.state != atiter(sent.state) ==> (atiter(sent.state) == sentPacketSent && sent.state == sentPacketAcked)
+//@   loop 1 step c.cc.bytesInFlight == atiter(c.cc.bytesInFlight) - ite(sent.state != atiter(sent.state) && sent.inFlight, sent.size, 0)
+//@   noframe
